@@ -25,6 +25,7 @@ type Config struct {
 
 var remoteAddrs = []string{
 	"git::https://example.com/p0.git",
+	"git::https://example.com/p1.git", // same length as p0: an equally long alias when it is a clone
 	"https://example.com/p1.tgz",
 	"git::ssh://git.example.com/org/p2.git?ref=v1",
 	"https://example.com/dl/p3?archive=tgz",
